@@ -14,6 +14,8 @@ import (
 	"math"
 	"math/rand"
 	"os"
+	"path/filepath"
+	"strings"
 	"runtime"
 	"sort"
 	"strconv"
@@ -35,11 +37,20 @@ type cexInput struct {
 	Val  uint64 `json:"val"`
 }
 
+type fsEntry struct {
+	Path   string `json:"path"`
+	Kind   string `json:"kind"`
+	Mode   uint32 `json:"mode"`
+	Data   []byte `json:"data"`
+	Target string `json:"target"`
+}
+
 type cex struct {
 	Label  string         `json:"label"`
 	Entry  string         `json:"entry"`
 	Inputs []cexInput     `json:"inputs"`
 	Params map[string]int `json:"params"`
+	FS     []fsEntry      `json:"fs"`
 }
 
 var (
@@ -96,6 +107,9 @@ func Reset() {
 	Reached = map[string]int{}
 	Events = nil
 	exhausted = false
+	tempDirs = nil
+	afterCrash = nil
+	crashed = false
 }
 
 func next(key string, random func() uint64) uint64 {
@@ -249,19 +263,69 @@ var tempDirFn func() string
 
 // SetTempDir is called by the replay test wrapper.
 func SetTempDir(f func() string) { tempDirFn = f }
+var (
+	tempDirs   []string // native directories, in the order TempDir was called (model: /tmp/verif1, /tmp/verif2, ...)
+	afterCrash func()
+	crashed    bool
+)
+
 func TempDir() string {
+	var d string
 	if tempDirFn != nil {
-		return tempDirFn()
+		d = tempDirFn()
+	} else {
+		var err error
+		d, err = os.MkdirTemp("", "verifrt")
+		if err != nil {
+			panic(err)
+		}
 	}
-	d, err := os.MkdirTemp("", "verifrt")
-	if err != nil {
-		panic(err)
-	}
+	mu.Lock()
+	tempDirs = append(tempDirs, d)
+	mu.Unlock()
 	return d
 }
 func CrashPoint()         {}
-func AfterCrash(f func()) {}
-func Crashed() bool       { return false }
+func AfterCrash(f func()) { afterCrash = f }
+func Crashed() bool       { return crashed }
+
+// restoreCrashState replaces the native temp directories by the file tree the model had at
+// the crash point (paths under /tmp/verif<N> map to the N-th TempDir()).
+func restoreCrashState(tree []fsEntry) {
+	for i, d := range tempDirs {
+		ents, _ := os.ReadDir(d)
+		for _, e := range ents {
+			p := filepath.Join(d, e.Name())
+			os.Chmod(p, 0o755)
+			filepath.Walk(p, func(q string, fi os.FileInfo, err error) error {
+				if err == nil && fi.IsDir() {
+					os.Chmod(q, 0o755)
+				}
+				return nil
+			})
+			os.RemoveAll(p)
+		}
+		prefix := fmt.Sprintf("/tmp/verif%d", i+1)
+		for _, en := range tree {
+			if en.Path != prefix && !strings.HasPrefix(en.Path, prefix+"/") {
+				continue
+			}
+			p := d + strings.TrimPrefix(en.Path, prefix)
+			switch en.Kind {
+			case "dir":
+				os.MkdirAll(p, 0o755)
+			case "file":
+				os.MkdirAll(filepath.Dir(p), 0o755)
+				if err := os.WriteFile(p, en.Data, os.FileMode(en.Mode|0o600)); err != nil {
+					panic(err)
+				}
+			case "link":
+				os.MkdirAll(filepath.Dir(p), 0o755)
+				os.Symlink(en.Target, p)
+			}
+		}
+	}
+}
 
 // Run executes a harness entry natively and reports failed assertion labels.
 // skippedRun is true when an Assume was false (possible only with random inputs).
@@ -278,6 +342,12 @@ func Run(entry func()) (failures []string, skippedRun bool, panicVal any) {
 			}
 		}()
 		entry()
+		// crash counterexample: put the surviving file tree in place and run the recovery function
+		if replay != nil && len(replay.FS) > 0 && afterCrash != nil {
+			restoreCrashState(replay.FS)
+			crashed = true
+			afterCrash()
+		}
 	}()
 	mu.Lock()
 	defer mu.Unlock()
